@@ -4,7 +4,7 @@ import AslModel.Generated.Deco68
 
 `decode` is the `switch (pOpcode->Type)` for a known opcode on the bytes already fetched (structured result: mnemonic,
 operand prefix, printed operand, `,x` suffix, length, successor mask, operand address); `disassemble` is the whole callback
-(fetching through `RetrieveData`, which wraps at 64K, unknown opcodes and data lines). -/
+(fetching through `RetrieveData`, which ends with the 64K address space, unknown opcodes and data lines). -/
 namespace AslModel.Dis.M6800
 open AslModel.Dis
 open AslModel.Generated
@@ -46,23 +46,14 @@ def makeSymbolic (lower : Bool) (syms : Syms) (a addrLen : Nat) (pfx : Option St
     | none => ("$" ++ h, syms)
     | some p => (p ++ h, syms.add (p ++ h) a)
 
-/-- the `while (Count > 0)` loop of `RetrieveData`: the request is cut at 0x10000 and continued at address 0
-(`Trans = 0x10000 - Address` in `LargeWord` arithmetic: above 0x10000 it is huge, so nothing is cut there) -/
-def retrieveDataF (img : Image) (lower : Bool) : Nat → Nat → Nat → Option (List Nat) × List String
-  | 0, _, _ => (some [], [])
-  | fuel + 1, a, count =>
-    if count = 0 then (some [], []) else
-    let trans := if a ≤ 0x10000 then min count (0x10000 - a) else count
-    match retrieve img a trans with
-    | none => (none, ["cannot retrieve instruction arg @ 0x" ++ hexString lower a 0])
-    | some bs =>
-      match retrieveDataF img lower fuel ((a + trans) % 0x10000) (count - trans) with
-      | (some rest, e) => (some (bs.map UInt8.toNat ++ rest), e)
-      | (none, e) => (none, e)
-
-/-- `RetrieveData(Address, buf, Count)`: at most one zero-length round (Address = 0x10000) and one wrap -/
+/-- `RetrieveData(Address, buf, Count)` (since the repair bdcaec7 of deco68.c): the address space ends at $FFFF, a request that
+reaches beyond it (`Address + Count > 0x10000`) fails like one that `RetrieveCodeFromChunkList` cannot answer - nothing is fetched
+from address 0 any more.  One message line on failure, with the first address of the request. -/
 def retrieveData (img : Image) (lower : Bool) (a count : Nat) : Option (List Nat) × List String :=
-  retrieveDataF img lower (count + 2) a count
+  if a + count > 0x10000 then (none, ["cannot retrieve instruction arg @ 0x" ++ hexString lower a 0]) else
+  match retrieve img a count with
+  | none => (none, ["cannot retrieve instruction arg @ 0x" ++ hexString lower a 0])
+  | some bs => (some (bs.map UInt8.toNat), [])
 
 /-- a decoded instruction -/
 structure Dec where
